@@ -142,7 +142,7 @@ def check_case(acc, case):
 
 
 def units(tier, seed):
-    n = 180 if tier == "quick" else 19200
+    n = 180 if tier == "quick" else 2400
     return [{"seed": seed * 30011 + i, "n": 6} for i in range(0, n, 6)]
 
 
